@@ -72,7 +72,10 @@ func main() {
 			imp.Name = ast.NewIdent("sync")
 		}
 		if p == "sync/atomic" {
-			die(fset, imp.Pos(), "sync/atomic is not modelled")
+			imp.Path.Value = strconv.Quote(shimBase + "vatomic")
+			if imp.Name == nil {
+				imp.Name = ast.NewIdent("atomic")
+			}
 		}
 	}
 	for _, d := range f.Decls {
